@@ -97,6 +97,10 @@ class MemBlockingControl(BaseBlockingControl):
         :return: An iterator over invocations that are blocking others.
         :rtype: Iterator["InvocationId"]
         """
+        if max_num_invocations <= 0:
+            # nothing requested (a runner without free slots asks for 0): the countdown
+            # below would never reach its exit and yield every ready invocation
+            return
         with self._lock:
             candidates = list(self._ready)
         for inv_id in candidates:
